@@ -18,6 +18,7 @@ mod c07;
 mod c08;
 mod c10;
 mod c12;
+mod c17;
 mod c18;
 mod c19;
 
@@ -45,6 +46,7 @@ fn main() {
         "C07" => { c07::cases(&mut ctx); c07::preds(&mut ctx); }
         "C08" => { c08::cases(&mut ctx); c08::preds(&mut ctx); }
         "C10" => { c10::cases(&mut ctx); c10::preds(&mut ctx); }
+        "C17" => { c17::cases(&mut ctx); c17::preds(&mut ctx); }
         "C18" => { c18::cases(&mut ctx); c18::preds(&mut ctx); }
         "C19" => { c19::cases(&mut ctx); c19::preds(&mut ctx); }
         "C12" => { c12::cases(&mut ctx); c12::preds(&mut ctx); }
